@@ -1,4 +1,4 @@
-import PeptVerif.Lemmas.Mass
+import PeptVerif.Lemmas.CompCalc
 /-!
 C03 — mass calculator ≡ composition calculator + residual delta.  Property theorems only.
 -/
@@ -8,14 +8,7 @@ open Pept Pept.Chem Pept.Mass Pept.CompCalc
 /-- the two encodings of the +1 ion agree: the composition of `FRAGMENT_ION_BASE_CHARGE_ADDUCTS[t]` (parsed by the
 adduct parser model) is `FRAGMENT_ION_COMPOSITIONS[t]`, for every ion type except `n` (whose adduct text is empty and
 never parsed: `n` takes the precursor branch) -/
-theorem ion_tables_agree :
-    Gen.ionComp.all (fun p =>
-      p.1 == ionN ||
-      (match lookup p.1 Gen.baseAdducts with
-        | none => false
-        | some s => match chargeAdductsCompStr s with
-          | .ok c => decide (dropZeros c = dropZeros (addAll [] p.2))
-          | .error _ => false)) = true := by decide +kernel
+theorem ion_tables_agree : CompCalc.ionTablesOk = true := by decide +kernel
 
 /-- Python builds the default charge carrier as the text `f'{n}H+'` and parses it back; for |n| ≤ 9 the parser model
 returns exactly `protonsComp n` -/
@@ -70,5 +63,73 @@ theorem comp_estimate_mass (c : Comp) (δ : Rat) :
       (addAll c (Gen.averagine.map (fun p => (p.1, p.2 * δ / isotopicAveragineMass))))
       = chemMassL (fun e => (elemMass true e).getD 0) c + δ := by
   rw [chemMassL_addAll, chemMassL_averagine]
+
+
+/-! ### the central identity -/
+
+/-- **mass calculator = composition calculator + residual delta, exactly over ℚ up to `k·ε`** with
+`ε = PROTON_MASS − (m(H) − mₑ)` and `k` = the number of charges the fast path adds as `PROTON_MASS` where the
+composition adds `H − e` (`charge` for `p`/`n`, `charge − 1` for the 16 fragment types):
+
+for every annotation whose written modifications resolve self-consistently in the mode (a plain shift, or a
+composition whose mass in that mode is the tabulated mass: `AllConsistent`), every placement (labile, unknown,
+termini, intervals, residues) and multiplier, every known ion type, any charge (argument or annotation, any sign), any
+isotope offset and loss, both modes.  |ε| ≤ 2·10⁻⁸ in monoisotopic mode (`C02.particles_ok`); in average mode
+`m(H)` is the average hydrogen mass and ε = −1.157·10⁻⁴.
+
+Partial: global static rules (`a.static = none`) and explicit adduct lists are not covered by this theorem — static
+rules are tied by correspondence and the oracle only; adduct lists with counts ≠ 1 are the known finding
+KF-C03-adduct-electron-count.  With isotope labels in force `mass` IS the composition path (`mass_label_path`). -/
+theorem mass_eq_compMass_partial (env : Env) (a : Annotation) (o : Opts)
+    (hstatic : a.static = none) (hl : o.isotopeMods = none) (hl' : a.isotope = none)
+    (had : o.adducts = none) (had' : a.adducts = none) (hprec : o.precision = none)
+    (hres : KnownResidues a.seq) (hcons : AllConsistent env o.mono (writtenMods a))
+    (hadj : (lookup o.ion neutralAdj).isSome = true)
+    (hion : o.ion = ionP ∨ o.ion = ionN ∨ (lookup o.ion Gen.ionComp).isSome = true) :
+    ∃ c d, compMass env a o.ion o.charge o.isotope none none o.useIsotopeOnMods = .ok (c, d) ∧
+      mass env a o = .ok (chemMassL (μ o.mono) c + d + o.loss + kProtons a o * (Gen.protonMass - hplus o.mono)) :=
+  mass_eq_compMass_of_tables ion_tables_agree env a o hstatic hl hl' had had' hprec hres hcons hadj hion
+
+/-- the size of ε: monoisotopic |ε| ≤ 2·10⁻⁸, average |ε| ≤ 1.2·10⁻⁴ — so the two calculators differ by at most
+`|k|·2·10⁻⁸` Da (mono) resp. `|k|·1.2·10⁻⁴` Da (average), inside the property's 10⁻⁴ / 10⁻³ for |k| ≤ 8 -/
+theorem epsilon_bound :
+    (-(2 / 100000000 : Rat) ≤ Gen.protonMass - hplus true ∧ Gen.protonMass - hplus true ≤ 2 / 100000000) ∧
+    (-(12 / 100000 : Rat) ≤ Gen.protonMass - hplus false ∧ Gen.protonMass - hplus false ≤ 12 / 100000) := by
+  unfold hplus μ
+  refine ⟨⟨?_, ?_⟩, ⟨?_, ?_⟩⟩ <;> decide +kernel
+
+/-- with isotope labels in force (argument or annotation) `mass` is by definition the composition path:
+`chem_mass(comp_mass(...).composition) + delta + loss`, rounded last -/
+theorem mass_label_path (env : Env) (a : Annotation) (o : Opts) (r : Resolved) (m : Mod) (ms : List Mod)
+    (hr : resolveArgs a o = .ok r) (hlab : r.isotopeMods = some (m :: ms))
+    (hB : a.seq.contains 'B' = false) (hZ : a.seq.contains 'Z' = false) :
+    mass env a o = (do
+      let (c, d) ← compMass env a o.ion r.charge o.isotope r.adducts (some (m :: ms)) o.useIsotopeOnMods
+      let cm ← chemMass o.mono c none
+      pure (roundOpt (cm + d + o.loss) o.precision)) := by
+  unfold mass massWith
+  rw [hr, bind_ok]
+  simp only [hB, hZ, Bool.false_eq_true, if_false]
+  rw [hlab]
+
+-- non-vacuity: PEPTIDE with a numeric shift ×2 on a residue, a composition-bearing N-terminal mod, a labile shift;
+-- y-type ion, charge 2, average mode
+example : AllConsistent ⟨fun v => if v = .int 7 then ⟨.ok 7, .ok 7, .ok (some 7), .error .valueError⟩
+      else ⟨.ok (chemMassL (μ true) [(kO, 1)]), .ok (chemMassL (μ false) [(kO, 1)]), .ok none, .ok [(kO, 1)]⟩, fun _ => .ok []⟩ false
+    (writtenMods { seq := "PEPTIDE".toList, labile := some [⟨.int 7, 1⟩], nterm := some [⟨.str "Oxidation".toList, 1⟩],
+                   internal := some [(2, [⟨.int 7, 2⟩])] }) := by
+  intro m hm
+  simp only [writtenMods, ivMods, intMods, Option.getD_some, Option.getD_none, List.flatMap_cons, List.flatMap_nil,
+    List.append_nil, List.nil_append, List.cons_append, List.mem_cons, List.mem_nil_iff, or_false] at hm
+  rcases hm with rfl | rfl | rfl
+  · exact Or.inl ⟨7, rfl, rfl⟩
+  · exact Or.inr ⟨[(kO, 1)], rfl, rfl, rfl⟩
+  · exact Or.inl ⟨7, rfl, rfl⟩
+example : KnownResidues ['P', 'E', 'P', 'T', 'I', 'D', 'E'] := by
+  intro ch hch
+  simp only [List.mem_cons, List.mem_nil_iff, or_false] at hch
+  rcases hch with rfl | rfl | rfl | rfl | rfl | rfl | rfl <;> exact Option.isSome_iff_exists.mp (by decide +kernel)
+example : (lookup (Spec.k "y") neutralAdj).isSome = true ∧ (lookup (Spec.k "y") Gen.ionComp).isSome = true := by
+  constructor <;> decide +kernel
 
 end Pept.C03
